@@ -230,6 +230,9 @@ class PairKernel:
         li, ri = self.pair(line, region)
         self.calls.append((li, ri))
         v = self.outcome[(li, ri)]
+        if region.hull_of is not None:
+            # touching the convex hull of a region is a weaker fact than touching the region (contract: intersects -> intersects_hull)
+            return core.branch(v['intersects_hull'])
         return core.branch(v['intersects'])
 
     def is_valid(self, poly):
@@ -329,7 +332,7 @@ def _run_assign(H, hl, L, kern, task):
     outcome = {}
     for l in range(nl):
         for r in range(nr):
-            outcome[(l, r)] = {'intersects': z3.Bool('intersects_%d_%d' % (l, r)), 'inside': z3.Bool('inside_%d_%d' % (l, r)),
+            outcome[(l, r)] = {'intersects': z3.Bool('intersects_%d_%d' % (l, r)), 'intersects_hull': z3.Bool('intersects_hull_%d_%d' % (l, r)), 'inside': z3.Bool('inside_%d_%d' % (l, r)),
                                'len': [z3.Real('len_%d_%d_%d' % (l, r, j)) for j in range(3)],
                                'area': [z3.Real('area_%d_%d_%d' % (l, r, j)) for j in range(3)],
                                'len_whole': None}
@@ -342,7 +345,7 @@ def _run_assign(H, hl, L, kern, task):
         c = {'mode': 'assign', 'nr': nr, 'nl': nl,
              'regions': [[mv(m_, S(v)) for v in (rx0[r], ry0[r], rx1[r], ry1[r])] for r in range(nr)],
              'baselines': [[mv(m_, S(bx[l][0])), mv(m_, S(by[l][0])), mv(m_, S(bx[l][1])), mv(m_, S(by[l][1]))] for l in range(nl)],
-             'kernel': {'%d_%d' % k: {'intersects': bool(mv(m_, SB(o['intersects']))), 'inside': bool(mv(m_, SB(o['inside']))),
+             'kernel': {'%d_%d' % k: {'intersects': bool(mv(m_, SB(o['intersects']))), 'intersects_hull': bool(mv(m_, SB(o['intersects_hull']))), 'inside': bool(mv(m_, SB(o['inside']))),
                                       'base': list(kern.result.get(k, {}).get('base', ())), 'outline': list(kern.result.get(k, {}).get('outline', ())),
                                       'len': [mv(m_, S(x)) for x in o['len']], 'area': [mv(m_, S(x)) for x in o['area']],
                                       'len_whole': mv(m_, o['len_whole']) if o['len_whole'] is not None else None} for k, o in outcome.items()},
@@ -383,6 +386,7 @@ def _run_assign(H, hl, L, kern, task):
                 disjoint = z3.Or(lx1 < rx0[r], lx0 > rx1[r], ly1 < ry0[r], ly0 > ry1[r])
                 # contract of the kernel
                 core.assume(z3.And(o['inside'] == ins, z3.Implies(ins, o['intersects']), z3.Implies(disjoint, z3.Not(o['intersects'])),
+                                   z3.Implies(o['intersects'], o['intersects_hull']), z3.Implies(disjoint, z3.Not(o['intersects_hull'])),
                                    *[z3.And(x >= 0, x <= ln) for x in o['len']], *[x >= 0 for x in o['area']]))
         out = hl.assign_lines_to_regions(b_list, h_list, t_list, regions)
         return out, b_list, t_list
@@ -408,7 +412,9 @@ def _run_assign(H, hl, L, kern, task):
                     # a pair the pre-filter drops can share at most a corner point with the region: a baseline lying wholly
                     # inside the region is then a single point (which GEOS measures as length 0, never > 2 px)
                     H.claim(z3.Implies(o['inside'], z3.And(bx[l][0] == bx[l][1], by[l][0] == by[l][1])), K + 'prefilter-drops-inside-line',
-                            'the bounding-box pre-filter dropped a line whose baseline lies wholly inside the region', lambda m_: case(m_, line=l, region=r))
+                            'the bounding-box pre-filter dropped a line whose baseline lies wholly inside the region', lambda m_: case(m_, line=l, region=r),
+                            robust=[z3.And(*[z3.And(bx[l][k_] >= rx0[r] + 1, bx[l][k_] <= rx1[r] - 1, by[l][k_] >= ry0[r] + 1, by[l][k_] <= ry1[r] - 1) for k_ in range(2)]),
+                                    z3.Or(bx[l][1] - bx[l][0] >= 3, by[l][1] - by[l][0] >= 3)])
                     if placed:
                         H.fail(K + 'placed-without-check', 'a line was placed without clipping', lambda m_: case(m_))
                     continue
